@@ -227,7 +227,13 @@ func (e *SpecEnv) term(x Expr) (Val, error) {
 	case *EIdent:
 		return e.ident(n.Name)
 	case *EUn:
+		if n.Op == "!" {
+			e.goal = !e.goal
+		}
 		v, err := e.term(n.X)
+		if n.Op == "!" {
+			e.goal = !e.goal
+		}
 		if err != nil {
 			return Val{}, err
 		}
@@ -394,7 +400,11 @@ func (e *SpecEnv) binary(n *EBin) (Val, error) {
 			// under its guard: premises when proving, conclusions when assuming
 			outer := e.facts
 			e.facts = &[]string{}
+			// the antecedent has the opposite polarity: what is assumed when
+			// proving the implication, and to be established when using it
+			e.goal = !e.goal
 			a, err := e.boolTerm(n.L)
+			e.goal = !e.goal
 			if err != nil {
 				e.facts = outer
 				return Val{}, err
@@ -751,6 +761,10 @@ func (e *SpecEnv) selector(n *ESel) (Val, error) {
 			if st.Field(i).Name() == n.Sel {
 				ft := st.Field(i).Type()
 				if isStruct(ft) {
+					if nt, ok := ft.(*types.Named); ok && nt.Obj().Pkg() != nil && nt.Obj().Pkg().Path() == "time" {
+						// time.Time / time.Duration-like values have value semantics in specifications
+						return Val{T: c.loadObj(e.cur, c.subRef(pt.Elem(), i, x.T), ft), Typ: ft}, nil
+					}
 					// embedded struct object: denote by pointer
 					return Val{T: c.subRef(pt.Elem(), i, x.T), Typ: types.NewPointer(ft)}, nil
 				}
@@ -1022,6 +1036,26 @@ func (e *SpecEnv) call(n *ECall) (Val, error) {
 				t = types.Typ[types.Int]
 			}
 			return Val{T: c.eidx(e.idx(a), e.idx(b)), Typ: t}, nil
+		case "strpos":
+			// strpos(): the byte position of the string range loop at whose head this invariant stands
+			if e.at == nil || e.f == nil {
+				return Val{}, fmt.Errorf("strpos() is only meaningful in a loop invariant")
+			}
+			var nx *ssa.Next
+			for _, ins := range e.at.Instrs {
+				if n2, ok := ins.(*ssa.Next); ok {
+					nx = n2
+				}
+			}
+			if nx == nil || !nx.IsString {
+				return Val{}, fmt.Errorf("strpos(): the loop is not a range over a string")
+			}
+			it, ok := e.f.vals[nx.Iter]
+			if !ok {
+				return Val{}, fmt.Errorf("strpos(): iterator not available")
+			}
+			c.heapSort["IterPos"] = "(Array Int Int)"
+			return Val{T: "(select " + c.heapGet(e.cur, "IterPos", "(Array Int Int)") + " " + it.T + ")", Typ: mathInt}, nil
 		case "visited":
 			// visited(k): key k has been produced by the map range loop at whose head this invariant stands
 			if e.at == nil || e.f == nil {
